@@ -348,6 +348,15 @@ def gen_domspec(t, kinds=None, small=False):
                 # encoded (log 0): not a legal input
                 lo = 1.0
                 up = max(up, lo)
+            if t.chance(1, 2):
+                # dense integer grid starting at a small value: neighbouring grid points round to neighbouring or equal integers
+                lo = float(t.int(1, 3))
+                up = float(round(math.exp(t.float(math.log(lo + 1.0), math.log(1e6)))))
+                size = t.int(2, 40) if not small else min(size, 5)
+                if not small and t.bool():
+                    # grid ratio near 1.5: rounding to int moves a grid point by about half a grid step
+                    r = t.float(1.4, 1.7)
+                    size = int(min(max(1 + round(math.log(up / lo) / math.log(r)), 2), 60))
         p.update(lower=lo, upper=up, size=size, cast_int=cast_int)
     else:
         raise HarnessError(kind)
